@@ -1,7 +1,346 @@
-//! C18: not built yet.
-use anyhow::{bail, Result};
-use serde_json::Value;
+//! C18: descriptor parse()/write() and the checked name newtypes of duke.
+//!
+//! Strings travel as arrays of one-character strings (the specification looks inside them).
+//! Type structure: {"dims":0..255,"base":"B".."Z"|"L","name":[chars]}  (name = [] unless base = "L");
+//! optional type: [] | [T]; method: {"params":[T..],"ret":[]|[T]}.
+//!
+//! ops  {"op":"field"|"method"|"return","s":[c..]}
+//!          checked constructor (TryFrom<&JavaStr> for &XDescriptorSlice), then parse(), then write() of the result
+//!          -> {"res":{"ok":true,"v":structure},"printed":[c..],"wpanic":false}  |  {"res":{"ok":false,"v":[]}}
+//!             (write() panicked: "printed":[],"wpanic":true,"wmsg":msg)
+//!      {"op":"print","kind":"field"|"method"|"return","x":structure}
+//!          structure built with the checked name constructors, write(), parse() of the written string
+//!          -> {"printed":[c..],"reparsed":{"ok":b,"v":structure}}  |  {"built":false}
+//!      {"op":"name:class|arr_class|obj_class|field|method|param|local","s":[c..]}
+//!          -> {"valid":X::is_valid,"ctor":<&XSlice>::try_from(..).is_ok(),"octor":X::try_from(JavaString).is_ok()}
+//!      {"op":"split","s":[c..]}   ObjClassNameSlice::split_inner_class_parent_and_name (+ the two getters)
+//!          -> {"res":{"ok":true,"v":[]|[[p..],[i..]]},"parent":[]|[[p..]],"inner":[]|[[i..]]}  |  {"res":{"ok":false,"v":[]}}
+//!      {"op":"join","p":[c..],"i":[c..]}   ObjClassName::from_inner_class, then split of the joined name
+//!          -> {"res":{"ok":true,"v":[c..]},"split":[]|[[p..],[i..]]}  |  {"res":{"ok":false,"v":[]}}
+use std::panic::{catch_unwind, AssertUnwindSafe};
+use anyhow::{bail, Context, Result};
+use java_string::{JavaStr, JavaString};
+use rand::rngs::StdRng;
+use rand::{Rng, SeedableRng};
+use serde_json::{json, Value};
+use duke::tree::class::{ArrClassName, ArrClassNameSlice, ClassName, ClassNameSlice, ObjClassName, ObjClassNameSlice};
+use duke::tree::descriptor::{ArrayType, ParsedFieldDescriptor, ParsedMethodDescriptor, ParsedReturnDescriptor, ReturnDescriptorSlice, Type};
+use duke::tree::field::{FieldDescriptorSlice, FieldName, FieldNameSlice};
+use duke::tree::method::{MethodDescriptorSlice, MethodName, MethodNameSlice, ParameterName, ParameterNameSlice};
+use duke::tree::method::code::{LocalVariableName, LocalVariableNameSlice};
 
-pub fn exec(_v: &Value) -> Result<Value> { bail!("C18: driver not built") }
+fn join_chars(v: &Value) -> Result<JavaString> {
+	let mut s = String::new();
+	for c in v.as_array().map(|a| a.as_slice()).unwrap_or(&[]) {
+		s.push_str(c.as_str().context("character")?);
+	}
+	Ok(JavaString::from(s))
+}
 
-pub fn gen(_seed: u64, _n: usize) -> Result<Vec<Value>> { bail!("C18: driver not built") }
+fn chars(s: &JavaStr) -> Value {
+	Value::Array(s.chars().map(|c| match c.as_char() {
+		Some(ch) => Value::String(ch.to_string()),
+		None => Value::String(format!("\\u{:04x}", c.as_u32())),
+	}).collect())
+}
+
+fn refused() -> Value { json!({"ok": false, "v": []}) }
+
+// ---- projection Type -> abstract structure
+fn ty(dims: u8, base: &str, name: Value) -> Value { json!({"dims": dims, "base": base, "name": name}) }
+
+fn proj_type(t: &Type) -> Value {
+	match t {
+		Type::B => ty(0, "B", json!([])),
+		Type::C => ty(0, "C", json!([])),
+		Type::D => ty(0, "D", json!([])),
+		Type::F => ty(0, "F", json!([])),
+		Type::I => ty(0, "I", json!([])),
+		Type::J => ty(0, "J", json!([])),
+		Type::S => ty(0, "S", json!([])),
+		Type::Z => ty(0, "Z", json!([])),
+		Type::Object(n) => ty(0, "L", chars(n.as_inner())),
+		Type::Array(d, a) => match a {
+			ArrayType::B => ty(*d, "B", json!([])),
+			ArrayType::C => ty(*d, "C", json!([])),
+			ArrayType::D => ty(*d, "D", json!([])),
+			ArrayType::F => ty(*d, "F", json!([])),
+			ArrayType::I => ty(*d, "I", json!([])),
+			ArrayType::J => ty(*d, "J", json!([])),
+			ArrayType::S => ty(*d, "S", json!([])),
+			ArrayType::Z => ty(*d, "Z", json!([])),
+			ArrayType::Object(n) => ty(*d, "L", chars(n.as_inner())),
+		},
+	}
+}
+fn proj_opt(t: &Option<Type>) -> Value { match t { None => json!([]), Some(t) => json!([proj_type(t)]) } }
+fn proj_method(m: &ParsedMethodDescriptor) -> Value {
+	json!({"params": m.parameter_descriptors.iter().map(proj_type).collect::<Vec<_>>(), "ret": proj_opt(&m.return_descriptor)})
+}
+
+// ---- abstract structure -> Type, through the checked constructors only (None: not constructible)
+fn build_type(v: &Value) -> Result<Option<Type>> {
+	let dims = v["dims"].as_u64().context("dims")?;
+	let base = v["base"].as_str().context("base")?;
+	if dims > 255 { return Ok(None); }
+	let d = dims as u8;
+	Ok(Some(if d == 0 {
+		match base {
+			"B" => Type::B, "C" => Type::C, "D" => Type::D, "F" => Type::F,
+			"I" => Type::I, "J" => Type::J, "S" => Type::S, "Z" => Type::Z,
+			"L" => match ObjClassName::try_from(join_chars(&v["name"])?) { Ok(n) => Type::Object(n), Err(_) => return Ok(None) },
+			_ => return Ok(None),
+		}
+	} else {
+		Type::Array(d, match base {
+			"B" => ArrayType::B, "C" => ArrayType::C, "D" => ArrayType::D, "F" => ArrayType::F,
+			"I" => ArrayType::I, "J" => ArrayType::J, "S" => ArrayType::S, "Z" => ArrayType::Z,
+			"L" => match ClassName::try_from(join_chars(&v["name"])?) { Ok(n) => ArrayType::Object(n), Err(_) => return Ok(None) },
+			_ => return Ok(None),
+		})
+	}))
+}
+fn build_opt(v: &Value) -> Result<Option<Option<Type>>> {
+	match v.as_array().and_then(|a| a.first()) {
+		None => Ok(Some(None)),
+		Some(t) => Ok(build_type(t)?.map(Some)),
+	}
+}
+
+/// the parsed value written back; a panic inside write() is kept apart from the verdict of parse()
+fn parsed<F: FnOnce() -> JavaString>(v: Value, write: F) -> Value {
+	match catch_unwind(AssertUnwindSafe(write)) {
+		Ok(s) => json!({"res": {"ok": true, "v": v}, "printed": chars(&s), "wpanic": false}),
+		Err(p) => {
+			let msg = p.downcast_ref::<String>().cloned().or_else(|| p.downcast_ref::<&str>().map(|s| s.to_string())).unwrap_or_default();
+			json!({"res": {"ok": true, "v": v}, "printed": [], "wpanic": true, "wmsg": msg})
+		},
+	}
+}
+
+fn name_op<'a, O, S: ?Sized + 'a>(s: &'a JavaString, valid: fn(&JavaStr) -> bool) -> Value
+where &'a S: TryFrom<&'a JavaStr>, O: TryFrom<JavaString> {
+	let ctor = <&S>::try_from(s.as_java_str()).is_ok();
+	let octor = O::try_from(s.clone()).is_ok();
+	json!({"valid": valid(s.as_java_str()), "ctor": ctor, "octor": octor})
+}
+
+fn opt_pair(r: Option<(&ObjClassNameSlice, &ObjClassNameSlice)>) -> Value {
+	match r { None => json!([]), Some((p, i)) => json!([chars(p.as_inner()), chars(i.as_inner())]) }
+}
+fn opt_one(r: Option<&ObjClassNameSlice>) -> Value {
+	match r { None => json!([]), Some(p) => json!([chars(p.as_inner())]) }
+}
+
+pub fn exec(v: &Value) -> Result<Value> {
+	let op = v["op"].as_str().context("op")?;
+	Ok(match op {
+		"field" => {
+			let s = join_chars(&v["s"])?;
+			let Ok(d) = <&FieldDescriptorSlice>::try_from(s.as_java_str()) else { return Ok(json!({"res": refused()})) };
+			match d.parse() {
+				Ok(p) => parsed(proj_type(&p.0), || p.write().into_inner()),
+				Err(_) => json!({"res": refused()}),
+			}
+		},
+		"method" => {
+			let s = join_chars(&v["s"])?;
+			let Ok(d) = <&MethodDescriptorSlice>::try_from(s.as_java_str()) else { return Ok(json!({"res": refused()})) };
+			match d.parse() {
+				Ok(p) => parsed(proj_method(&p), || p.write().into_inner()),
+				Err(_) => json!({"res": refused()}),
+			}
+		},
+		"return" => {
+			let s = join_chars(&v["s"])?;
+			let Ok(d) = <&ReturnDescriptorSlice>::try_from(s.as_java_str()) else { return Ok(json!({"res": refused()})) };
+			match d.parse() {
+				Ok(p) => parsed(proj_opt(&p.0), || p.write().into_inner()),
+				Err(_) => json!({"res": refused()}),
+			}
+		},
+		"print" => {
+			let x = &v["x"];
+			let res = |r: Result<Value>| match r { Ok(v) => json!({"ok": true, "v": v}), Err(_) => refused() };
+			match v["kind"].as_str().context("kind")? {
+				"field" => {
+					let Some(t) = build_type(x)? else { return Ok(json!({"built": false})) };
+					let w = ParsedFieldDescriptor(t).write();
+					json!({"printed": chars(w.as_inner()), "reparsed": res(w.parse().map(|p| proj_type(&p.0)))})
+				},
+				"return" => {
+					let Some(t) = build_opt(x)? else { return Ok(json!({"built": false})) };
+					let w = ParsedReturnDescriptor(t).write();
+					json!({"printed": chars(w.as_inner()), "reparsed": res(w.parse().map(|p| proj_opt(&p.0)))})
+				},
+				"method" => {
+					let mut ps = vec![];
+					for p in x["params"].as_array().map(|a| a.as_slice()).unwrap_or(&[]) {
+						let Some(t) = build_type(p)? else { return Ok(json!({"built": false})) };
+						ps.push(t);
+					}
+					let Some(r) = build_opt(&x["ret"])? else { return Ok(json!({"built": false})) };
+					let w = ParsedMethodDescriptor { parameter_descriptors: ps, return_descriptor: r }.write();
+					json!({"printed": chars(w.as_inner()), "reparsed": res(w.parse().map(|p| proj_method(&p)))})
+				},
+				k => bail!("C18: unknown kind {k}"),
+			}
+		},
+		"name:class" => name_op::<ClassName, ClassNameSlice>(&join_chars(&v["s"])?, ClassName::is_valid),
+		"name:arr_class" => name_op::<ArrClassName, ArrClassNameSlice>(&join_chars(&v["s"])?, ArrClassName::is_valid),
+		"name:obj_class" => name_op::<ObjClassName, ObjClassNameSlice>(&join_chars(&v["s"])?, ObjClassName::is_valid),
+		"name:field" => name_op::<FieldName, FieldNameSlice>(&join_chars(&v["s"])?, FieldName::is_valid),
+		"name:method" => name_op::<MethodName, MethodNameSlice>(&join_chars(&v["s"])?, MethodName::is_valid),
+		"name:param" => name_op::<ParameterName, ParameterNameSlice>(&join_chars(&v["s"])?, ParameterName::is_valid),
+		"name:local" => name_op::<LocalVariableName, LocalVariableNameSlice>(&join_chars(&v["s"])?, LocalVariableName::is_valid),
+		"split" => {
+			let s = join_chars(&v["s"])?;
+			let Ok(n) = <&ObjClassNameSlice>::try_from(s.as_java_str()) else { return Ok(json!({"res": refused()})) };
+			json!({"res": {"ok": true, "v": opt_pair(n.split_inner_class_parent_and_name())},
+				"parent": opt_one(n.get_inner_class_parent()), "inner": opt_one(n.get_inner_class_name())})
+		},
+		"join" => {
+			let (p, i) = (join_chars(&v["p"])?, join_chars(&v["i"])?);
+			let Ok(p) = ObjClassName::try_from(p) else { return Ok(json!({"res": refused()})) };
+			let Ok(i) = <&ObjClassNameSlice>::try_from(i.as_java_str()) else { return Ok(json!({"res": refused()})) };
+			let j = ObjClassName::from_inner_class(p, i);
+			json!({"res": {"ok": true, "v": chars(j.as_inner())}, "split": opt_pair(j.split_inner_class_parent_and_name())})
+		},
+		_ => bail!("C18: unknown op {op}"),
+	})
+}
+
+// ------------------------------------------------------------------------------------------------
+// Random inputs (no expectations): longer than the MC universe.
+
+fn cs(s: &str) -> Value { Value::Array(s.chars().map(|c| Value::String(c.to_string())).collect()) }
+
+const SEG_CHARS: &[char] = &['a', 'b', 'Z', 'L', 'V', 'I', '$', '_', '0', '(', ')', '<', '>', '-', 'é', 'ß', '字', '😀', ' '];
+const EDIT_CHARS: &[char] = &['[', ';', 'L', 'V', 'I', 'B', 'J', 'D', '(', ')', '/', '.', '$', 'a', 'x', '<', '>', 'é', '😀'];
+const PRIMS: &[char] = &['B', 'C', 'D', 'F', 'I', 'J', 'S', 'Z'];
+const DIMS: &[usize] = &[0, 0, 0, 0, 1, 1, 2, 3, 7, 254, 255, 255, 256, 257, 300];
+
+fn pick<'a, T>(r: &mut StdRng, xs: &'a [T]) -> &'a T { &xs[r.gen_range(0..xs.len())] }
+
+fn gen_class_name(r: &mut StdRng) -> String {
+	let segs = if r.gen_bool(0.1) { r.gen_range(4..12) } else { r.gen_range(1..4) };
+	let mut s = String::new();
+	for k in 0..segs {
+		if k > 0 { s.push('/'); }
+		let len = if r.gen_bool(0.1) { r.gen_range(10..40) } else { r.gen_range(1..6) };
+		for _ in 0..len { s.push(*pick(r, SEG_CHARS)); }
+	}
+	s
+}
+
+/// a random type structure and its spelling
+fn gen_type(r: &mut StdRng, dims: &[usize]) -> (Value, String) {
+	let d = *pick(r, dims);
+	let mut s = "[".repeat(d);
+	let v = if r.gen_bool(0.5) {
+		let b = *pick(r, PRIMS);
+		s.push(b);
+		json!({"dims": d, "base": b.to_string(), "name": []})
+	} else {
+		let n = gen_class_name(r);
+		s.push('L'); s.push_str(&n); s.push(';');
+		json!({"dims": d, "base": "L", "name": cs(&n)})
+	};
+	(v, s)
+}
+
+fn gen_method(r: &mut StdRng, dims: &[usize]) -> (Value, String) {
+	let n = if r.gen_bool(0.1) { r.gen_range(5..12) } else { r.gen_range(0..4) };
+	let mut s = String::from("(");
+	let mut ps = vec![];
+	for _ in 0..n {
+		let small: &[usize] = &[0, 0, 0, 1, 2];
+		let dd = if r.gen_bool(0.15) { dims } else { small };
+		let (v, t) = gen_type(r, dd);
+		ps.push(v); s.push_str(&t);
+	}
+	s.push(')');
+	let ret = if r.gen_bool(0.4) { s.push('V'); json!([]) } else { let (v, t) = gen_type(r, dims); s.push_str(&t); json!([v]) };
+	(json!({"params": ps, "ret": ret}), s)
+}
+
+fn one_edit(r: &mut StdRng, s: &str) -> String {
+	let mut c: Vec<char> = s.chars().collect();
+	match r.gen_range(0..5) {
+		0 if !c.is_empty() => { let i = r.gen_range(0..c.len()); c.remove(i); },
+		1 if !c.is_empty() => { let i = r.gen_range(0..c.len()); c[i] = *pick(r, EDIT_CHARS); },
+		2 => { c.push(*pick(r, EDIT_CHARS)); },
+		3 if !c.is_empty() => { let i = r.gen_range(0..c.len()); let x = c[i]; c.insert(i, x); },
+		_ => { let i = r.gen_range(0..=c.len()); c.insert(i, *pick(r, EDIT_CHARS)); },
+	}
+	c.into_iter().collect()
+}
+
+fn gen_name(r: &mut StdRng) -> String {
+	const NAME_CHARS: &[char] = &['a', 'b', '.', ';', '[', '/', '<', '>', '$', 'L', 'I', '1', '-', 'é', '字', '😀'];
+	match r.gen_range(0..10) {
+		0 => (*pick(r, &["<init>", "<clinit>", "<init", "init>", "<clinit>x", "<Init>", "<>", "<init>>"])).to_owned(),
+		1 => { let t = gen_type(r, &[1, 1, 2, 3, 254, 255, 256, 300]).1; if r.gen_bool(0.4) { one_edit(r, &t) } else { t } },
+		2 | 3 => { let t = gen_class_name(r); if r.gen_bool(0.4) { one_edit(r, &t) } else { t } },
+		_ => { let len = r.gen_range(0..14); (0..len).map(|_| *pick(r, NAME_CHARS)).collect() },
+	}
+}
+
+fn gen_dollar_name(r: &mut StdRng) -> String {
+	const C: &[char] = &['a', 'b', '$', '$', '/', 'X', '1', 'é'];
+	let len = r.gen_range(0..16);
+	let s: String = (0..len).map(|_| *pick(r, C)).collect();
+	if r.gen_bool(0.1) { one_edit(r, &s) } else { s }
+}
+
+pub fn gen(seed: u64, n: usize) -> Result<Vec<Value>> {
+	let mut r = StdRng::seed_from_u64(seed ^ 0xC18);
+	let kinds = ["field", "method", "return"];
+	let name_kinds = ["class", "arr_class", "obj_class", "field", "method", "param", "local"];
+	let mut out = vec![];
+	while out.len() < n {
+		match r.gen_range(0..20) {
+			// a valid descriptor from a random structure, sometimes with one edit, read as its own kind (mostly) or another
+			0..=8 => {
+				let k = r.gen_range(0..3);
+				let (_, mut s) = match k {
+					0 => gen_type(&mut r, DIMS),
+					1 => gen_method(&mut r, DIMS),
+					_ => if r.gen_bool(0.2) { (json!([]), "V".to_owned()) } else { gen_type(&mut r, DIMS) },
+				};
+				if r.gen_bool(0.5) { s = one_edit(&mut r, &s); }
+				if r.gen_bool(0.1) { s.push_str(*pick(&mut r, &["V", ")", "I", ";", "[", "()V", " "])); }   // trailing garbage
+				if r.gen_bool(0.05) { s = format!("({s}){s}"); }                                                // nested parentheses
+				if r.gen_bool(0.05) && s.starts_with('(') { s.remove(0); }                                      // missing parenthesis
+				let op = if r.gen_bool(0.8) { kinds[k] } else { *pick(&mut r, &kinds) };
+				out.push(json!({"op": op, "s": cs(&s)}));
+			},
+			// structures for write() and back
+			9..=11 => {
+				let k = r.gen_range(0..3);
+				let x = match k {
+					0 => gen_type(&mut r, &[0, 0, 1, 2, 3, 100, 254, 255]).0,
+					1 => gen_method(&mut r, &[0, 0, 1, 2, 3, 100, 254, 255]).0,
+					_ => if r.gen_bool(0.2) { json!([]) } else { json!([gen_type(&mut r, &[0, 0, 1, 2, 255]).0]) },
+				};
+				out.push(json!({"op": "print", "kind": kinds[k], "x": x}));
+			},
+			12..=15 => {
+				let s = gen_name(&mut r);
+				let k = *pick(&mut r, &name_kinds);
+				out.push(json!({"op": format!("name:{k}"), "s": cs(&s)}));
+			},
+			16 | 17 => {
+				let s = if r.gen_bool(0.3) { let c = gen_class_name(&mut r); format!("{}${}", c, gen_dollar_name(&mut r)) } else { gen_dollar_name(&mut r) };
+				out.push(json!({"op": "split", "s": cs(&s)}));
+			},
+			_ => {
+				let p = if r.gen_bool(0.5) { gen_class_name(&mut r) } else { gen_dollar_name(&mut r) };
+				let i = if r.gen_bool(0.5) { gen_dollar_name(&mut r).replace('/', "") } else { gen_dollar_name(&mut r) };
+				out.push(json!({"op": "join", "p": cs(&p), "i": cs(&i)}));
+			},
+		}
+	}
+	out.truncate(n);
+	Ok(out)
+}
